@@ -248,6 +248,25 @@ class Rot:
             return Rot(matrix=M)
         return NotImplemented
 
+    def __pow__(self, alpha):
+        """q ** alpha = exp(alpha log q) for a yaw rotation in angle mode: the rotation angle of the *stored* quaternion
+        (theta for sign +1, theta -+ 2 pi - the long way round - for sign -1) is scaled by alpha."""
+        if self.q is not None:
+            if not is_sym(alpha) and alpha == 1:
+                return Rot(self)
+            if not is_sym(alpha) and alpha == 0:
+                return Rot()
+            raise NotImplementedError("power of an exact-mode rotation")
+        phi = self.theta
+        if self.sign < 0:
+            phi = phi - 2 * PI if bool(phi > 0) else phi + 2 * PI
+        a = alpha * phi
+        if bool(a > PI):
+            return Rot(theta=a - 2 * PI, sign=-1)
+        if bool(a <= -PI):
+            return Rot(theta=a + 2 * PI, sign=-1)
+        return Rot(theta=a, sign=1)
+
     def __neg__(self):
         if self.q is None:
             return Rot(theta=self.theta, sign=-self.sign)
